@@ -1,9 +1,108 @@
-import Driver.Util
-namespace Driver.C18
-open Mtv Driver
+/-
+  Line-protocol driver of C18. The driver plays BOTH sides written in Lean: the client model
+  (Mtv.Srp.Client — must reproduce the Go client's bytes) and the specification server
+  (Mtv.Srp.ServerSpec — judges the answer). H = Mtv.Crypto.sha256, KDF = PBKDF2-HMAC-SHA512 with
+  100000 iterations and 64 bytes.
 
-/-- operations of property C18; not built yet -/
+  Operations (byte strings: hex, `-` empty, `z<n>`, `p<n>`; numbers `v`, `b`: hex of the big-endian bytes):
+    c18.srp <pw> <salt1> <salt2> <g> <p> <random> <srpB> <x|?> <v|?> <b|?>
+        the internal computation (`telegram.VerifSRP`). `x` = PH2 supplied (hex) or `?`: the driver
+        computes PH2 itself (PBKDF2, slow). `v`,`b` = the server's verifier and secret, or `?`: no server.
+        result: `none` | `err:invalidB` | `panic:<site>` | `ok ga=<hex> m1=<hex>`, then with a server
+        ` B=same|other srv=accept|reject|-`.
+    c18.pub <pw> <mp|other|nil> <salt1> <salt2> <g> <p> <srpB> <srpId> <x|?> <v|?> <b|?>
+        the public `telegram.GetInputCheckPassword` (draws its own random bytes): the result projected
+        on what does not depend on them.
+    c18.ph2 <pw> <salt1> <salt2>        PH2 alone (no Go counterpart in the repository's API; the Go side
+        answers with its own independent computation — used to tie the executable KDF)
+-/
+import Driver.Util
+import Mtv.Srp.Client
+import Mtv.Srp.ServerSpec
+import Mtv.Crypto.Sha256
+import Mtv.Crypto.Pbkdf2
+namespace Driver.C18
+open Mtv Mtv.Srp Driver
+
+def H : Bytes → Bytes := Mtv.Crypto.sha256
+def KDF (pw salt : Bytes) : Bytes := Mtv.Crypto.pbkdf2HmacSha512 pw salt 100000 64
+
+/-- `?` = absent -/
+def optBytes? (s : String) : Option (Option Bytes) :=
+  if s = "?" then some none else (parseBytes? s).map some
+
+structure SrvArgs where
+  v : Nat
+  b : Nat
+
+def srvArgs? (v b : String) : Option (Option SrvArgs) :=
+  match optBytes? v, optBytes? b with
+  | some (some v), some (some b) => some (some ⟨fromBE v, fromBE b⟩)
+  | some none, some none => some none
+  | _, _ => none
+
+def verdict (sv : Server) (b : Nat) (srpB ga m1 : Bytes) : String :=
+  let same := if sv.B H b = fromBE srpB then "same" else "other"
+  let acc := if sv.accepts H b ga m1 then "accept" else "reject"
+  s!" B={same} srv={acc}"
+
+def noVerdict (sv : Server) (b : Nat) (srpB : Bytes) : String :=
+  let same := if sv.B H b = fromBE srpB then "same" else "other"
+  s!" B={same} srv=-"
+
+def xFor (x : Option Bytes) (pw : Bytes) (algo : Algo) : Nat :=
+  match x with
+  | some xb => fromBE xb
+  | none => xOf H KDF pw algo
+
 def handle : List String → String
+  | ["c18.ph2", pw, s1, s2] =>
+    match parseBytes? pw, parseBytes? s1, parseBytes? s2 with
+    | some pw, some s1, some s2 => toHex (passwordHash2 H KDF pw s1 s2)
+    | _, _, _ => "bad-op"
+  | ["c18.srp", pw, s1, s2, g, p, random, srpB, x, v, b] =>
+    match parseBytes? pw, parseBytes? s1, parseBytes? s2, g.toNat?, parseBytes? p, parseBytes? random,
+          parseBytes? srpB, optBytes? x, srvArgs? v b with
+    | some pw, some s1, some s2, some g, some p, some random, some srpB, some x, some srv =>
+      let algo : Algo := { salt1 := s1, salt2 := s2, g := g, pBytes := p }
+      -- the password hash is only needed (and only computed by the code) past the two early returns
+      let r := if pw = [] then answerWithX H pw 0 srpB algo random
+               else if !validate srpB algo then answerWithX H pw 0 srpB algo random
+               else answerWithX H pw (xFor x pw algo) srpB algo random
+      let sv? := srv.map fun a => (({ salt1 := s1, salt2 := s2, g := g, pBytes := p, v := a.v } : Server), a.b)
+      match r with
+      | .ok .none => "none" ++ (match sv? with | some (sv, b) => noVerdict sv b srpB | none => "")
+      | .ok (.srp ga m1) =>
+        s!"ok ga={toHexD ga} m1={toHexD m1}" ++
+          (match sv? with | some (sv, b) => verdict sv b srpB ga m1 | none => "")
+      | .err e => s!"err:{e}" ++ (match sv? with | some (sv, b) => noVerdict sv b srpB | none => "")
+      | .panic s => s!"panic:{s}"
+    | _, _, _, _, _, _, _, _, _ => "bad-op"
+  | ["c18.pub", pw, kind, s1, s2, g, p, srpB, srpId, x, v, b] =>
+    match parseBytes? pw, parseBytes? s1, parseBytes? s2, g.toNat?, parseBytes? p,
+          parseBytes? srpB, srpId.toInt?, optBytes? x, srvArgs? v b with
+    | some pw, some s1, some s2, some g, some p, some srpB, some srpId, some x, some srv =>
+      let algo : Algo := { salt1 := s1, salt2 := s2, g := g, pBytes := p }
+      -- any 256 bytes: by `srp_complete_public` the projection printed does not depend on them
+      let random : Bytes := (List.range 256).map fun i => UInt8.ofNat ((i * 37 + 11) % 256)
+      let r0 := if pw = [] then answerWithX H pw 0 srpB algo random
+                else if !validate srpB algo then answerWithX H pw 0 srpB algo random
+                else answerWithX H pw (xFor x pw algo) srpB algo random
+      let r : Outcome InputCheck :=
+        match kind with
+        | "other" | "nil" => getInputCheckPassword H KDF pw .other srpB srpId random
+        | _ => wrapAnswer srpId r0   -- = `getInputCheckPassword H KDF pw (.modPow algo) …`, x taken from the line
+      if kind ≠ "mp" ∧ kind ≠ "other" ∧ kind ≠ "nil" then "bad-op" else
+      match r with
+      | .ok .empty => "empty"
+      | .ok (.obj id ga m1) =>
+        let vd := match srv with
+          | some a => verdict { salt1 := s1, salt2 := s2, g := g, pBytes := p, v := a.v } a.b srpB ga m1
+          | none => ""
+        s!"obj srpid={id} alen={ga.length} m1len={m1.length}" ++ vd
+      | .err e => s!"err:{e}"
+      | .panic s => s!"panic:{s}"
+    | _, _, _, _, _, _, _, _, _ => "bad-op"
   | _ => "bad-op"
 
 end Driver.C18
